@@ -98,6 +98,19 @@ def oracle(case, outs):
             pool.remove(c)
         else:
             return "read error code %s was not injected by the source (or reported twice): script %s -> %s" % (c, script, out[:300])
+    # every read error the source certainly delivered surfaces: if the run reached the end of the input (a next() returned None
+    # and the script has no pauses), an injected error that sits in the script before enough chunks to deliver the whole input
+    # was returned by some read() call, so its code must have been reported by next() or try_recover()
+    parts = script.split(",") if script != "-" else []
+    if codes and "p" not in parts and "N" in toks_:
+        delivered = 0
+        for x in parts:
+            if x.startswith("e"):
+                if delivered < n and x[1:] not in seen:
+                    return ("read error %s was returned by the source (only %d of %d bytes could have been delivered before it) but never "
+                            "surfaced: script %s -> %s   [%s]" % (x[1:], delivered, n, script, out[:300], case.lines[0][:500]))
+            elif x.isdigit():
+                delivered += int(x)
     # fused: with a source that never pauses or fails, a None means the source is exhausted
     if "p" not in script.split(",") and not codes:
         ops = f[5]
